@@ -60,8 +60,27 @@ OPS: list[tuple[str, ...]] = (
     + [("create_token", "none"), ("create_token", "key"), ("create_oidc",),
        # the same account logs in again after its e-mail address changed; a second account that owns that address
        ("create_oidc", "u1", "renamed"), ("create_oidc", "u2", "renamed"), ("select", "default"), ("select", "token"), ("select", "email"),
-       ("select_any",), ("set_project", "default"), ("delete_profile", "default"), ("delete_profile", "email")]
+       ("select_any",), ("set_project", "default"), ("delete_profile", "default"), ("delete_profile", "email"),
+       # a read-only command (shows the active profile): changes nothing on disk, but goes through the same long-lived services
+       ("whoami",)]
 )
+
+
+def _summary(v: Any, depth: int = 3) -> Any:
+    """whatever a long-lived service object keeps in memory, reduced to plain values (part of the canonical state: two
+    histories with equal tables but different in-memory service state are different states)"""
+    if v is None or isinstance(v, (str, int, float, bool)):
+        return v
+    if depth == 0 or callable(v):
+        return type(v).__name__
+    if isinstance(v, (list, tuple, set, frozenset)):
+        return sorted((_summary(x, depth - 1) for x in v), key=repr)
+    if isinstance(v, dict):
+        return {str(k): _summary(x, depth - 1) for k, x in sorted(v.items(), key=lambda kv: str(kv[0]))}
+    d = getattr(v, "__dict__", None)
+    if d is None:
+        return type(v).__name__
+    return {"__type__": type(v).__name__, **{k: _summary(x, depth - 1) for k, x in sorted(d.items()) if k not in ("config_manager",)}}
 
 
 class World:
@@ -93,13 +112,15 @@ class World:
                     res = "noop"
                 else:
                     self.picked = {p for p in self.picked if p[0] != URLS[op[1]]}  # its profiles are gone
+            elif kind == "whoami":
+                self.auth().get_current_profile()
             elif kind == "create_token":
                 a = self.auth().create_profile_from_token("proj", TOKEN if op[1] == "key" else None)
-                self.picked.add((before, a.name))
+                self.picked.add((a.api_url, a.name))  # (a profile is created for ONE environment: it is picked there only)
             elif kind == "create_oidc":
                 o = oidc() if len(op) == 1 else oidc(op[1], EMAIL2 if op[2] == "renamed" else EMAIL)
                 a = self.auth().create_or_update_profile_from_oidc("proj", o)
-                self.picked.add((before, a.name))
+                self.picked.add((a.api_url, a.name))
             elif kind == "select":
                 name = {"default": "default", "token": self._token_name(), "email": EMAIL}[op[1]]
                 if self.auth().get_profile(name) is None:
@@ -142,7 +163,8 @@ class World:
             envs = sorted(conn.execute("SELECT api_url, requires_auth FROM environments").fetchall())
             profs = sorted(conn.execute("SELECT name, api_url, project_id FROM profiles").fetchall())
             sets = sorted(conn.execute("SELECT key, value FROM settings").fetchall())
-        return {"envs": envs, "profiles": profs, "settings": sets, "picked": sorted(self.picked)}
+        mem = {k: _summary(x) for k, x in sorted(vars(self.env).items()) if k != "config_manager"}
+        return {"envs": envs, "profiles": profs, "settings": sets, "picked": sorted(self.picked), "service_memory": mem}
 
     def invariant(self) -> list[tuple[str, dict[str, Any], str]]:
         v = []
